@@ -20,7 +20,7 @@ def tranp_root() -> str:
 	return tranp_dir()
 
 
-def base_definitions(cache_dir: str, extra_source_dirs: list[str] | None = None, transpiler_env: dict | None = None) -> dict:
+def base_definitions(cache_dir: str, extra_source_dirs: list[str] | None = None, transpiler_env: dict | None = None, template_dirs: list[str] | None = None) -> dict:
 	from rogw.tranp.app.env import DataEnvPath, SourceEnvPath
 	from rogw.tranp.cache.cache import CacheSetting
 	from rogw.tranp.i18n.i18n import TranslationMapping
@@ -37,7 +37,7 @@ def base_definitions(cache_dir: str, extra_source_dirs: list[str] | None = None,
 	def make_renderer_setting(i18n, emitter):
 		# parameters are passed by value (no immutable_param_types): `d[k]` on a `const std::map&` parameter does not compile,
 		# and by-value parameters are what "plain objects are C++ values" means for C01
-		return RendererSetting([os.path.join(root, 'data/cpp/template')], i18n.t, emitter, {'immutable_param_types': VIEW_IMMUTABLE_PARAM_TYPES})
+		return RendererSetting([*(template_dirs or []), os.path.join(root, 'data/cpp/template')], i18n.t, emitter, {'immutable_param_types': VIEW_IMMUTABLE_PARAM_TYPES})
 
 	make_renderer_setting.__annotations__ = {'i18n': __import__('rogw.tranp.i18n.i18n', fromlist=['I18n']).I18n, 'emitter': RendererEmitter, 'return': RendererSetting}
 
@@ -57,10 +57,24 @@ def base_definitions(cache_dir: str, extra_source_dirs: list[str] | None = None,
 	}
 
 
+def depends_template_dir(scratch: str) -> str:
+	"""A project-local template directory (searched first) whose list/dict type templates use the documented `emit_depends` helper:
+	the per-transpile include stack of Py2Cpp becomes observable in the output (C04)."""
+	d = os.path.join(scratch, 'templates-with-depends')
+	if not os.path.isdir(d):
+		os.makedirs(os.path.join(d, 'type'))
+		root = tranp_root()
+		for name, header in (('list_type', '<vector>'), ('dict_type', '<map>')):
+			stock = open(os.path.join(root, 'data/cpp/template/type', name + '.j2')).read()
+			with open(os.path.join(d, 'type', name + '.j2'), 'w') as f:
+				f.write("{{- emit_depends('%s') -}}\n" % header + stock)
+	return d
+
+
 class MemApp:
 	"""One long-lived App with an in-memory `__main__` module (what Interactive does)."""
 
-	def __init__(self, scratch: str, extra_source_dirs: list[str] | None = None, module_paths: list[str] | None = None, definitions: dict | None = None) -> None:
+	def __init__(self, scratch: str, extra_source_dirs: list[str] | None = None, module_paths: list[str] | None = None, definitions: dict | None = None, depends_templates: bool = False) -> None:
 		from rogw.tranp.app.app import App
 		from rogw.tranp.app.dummy import WrapSourceProvider, make_dummy_module_meta_factory
 		from rogw.tranp.data.meta.types import ModuleMetaFactory
@@ -72,7 +86,7 @@ class MemApp:
 		self.cache_dir = tempfile.mkdtemp(prefix='cache-', dir=scratch)
 		paths = ['__main__'] + list(module_paths or [])
 		defs = {
-			**base_definitions(self.cache_dir, extra_source_dirs),
+			**base_definitions(self.cache_dir, extra_source_dirs, template_dirs=[depends_template_dir(scratch)] if depends_templates else None),
 			to_fullyname(SourceProvider): WrapSourceProvider,
 			to_fullyname(ModuleMetaFactory): make_dummy_module_meta_factory,
 			to_fullyname(ModulePaths): lambda: ModulePaths([ModulePath(p, language='py') for p in paths]),
